@@ -66,9 +66,28 @@ def gen_kinst(rng, nmin=2, nmax=10, m=0, labelled=False, kinds=("feat", "lattice
     return gen_kinst(rng, nmin, nmax, m, labelled, kinds=("mat",))
 
 
-def make_knn_model(inst, cls, **kw):
+_KREUSE = {}
+
+
+def make_knn_model(inst, cls, reuse=False, **kw):
+    """reuse=True: the same model object is trained again (re-configured through its public attributes), as a caller
+    running several experiments with one classifier object would do"""
     if inst.X is not None:
-        opf = cls(distance=inst.metric, **kw)
+        if reuse and cls in _KREUSE and not _KREUSE[cls].pre_computed_distance:
+            import opfython.math.distance as dmod
+            opf = _KREUSE[cls]
+            opf.distance = inst.metric
+            opf.distance_fn = dmod.DISTANCES[inst.metric]
+            for a, v in kw.items():
+                if a == "max_k" and hasattr(opf, "min_k") and "min_k" in kw:
+                    continue
+                setattr(opf, a, v)
+            if "min_k" in kw:           # keep min_k <= max_k valid at every step
+                opf._min_k = kw["min_k"]; opf.max_k = kw["max_k"]
+        else:
+            opf = cls(distance=inst.metric, **kw)
+            if reuse:
+                _KREUSE[cls] = opf
         X = np.array(inst.X, dtype=float)
         return opf, X, None
     opf = cls(**kw)
@@ -133,10 +152,11 @@ def oracle_arcs(D, n, k, adj, radius, gdens, maxd):
         want = max(col) if col else 0.0
         if maxd[l] != max(want, 0.0):
             return "per-rank maximum %d is %r, true maximum %r" % (l, maxd[l], want)
-    true = max([r for r in radius] + [0.0])
-    want = 1 if true < 0.00001 else true
-    if gdens != want:
-        return "density bound %r, expected %r" % (gdens, want)
+    if gdens is not None:
+        true = max([r for r in radius] + [0.0])
+        want = 1 if true < 0.00001 else true
+        if gdens != want:
+            return "density bound %r, expected %r" % (gdens, want)
     return None
 
 
